@@ -62,9 +62,10 @@ var verifyReqs = []verifyReq{
 	req("hashConfig", "Verify", "InputLen ≤ 8", "8-byte loads", -8, "InputLen", 1),
 	req("hashConfig", "Verify", "0 ≤ HashBits", "1 << HashBits table", 0, "HashBits", -1),
 	req("hashConfig", "Verify", "HashBits ≤ 24", "table allocation", -24, "HashBits", 1),
-	req("hash", "init", "2 ≤ inputLen", "hash.init agrees with hashConfig.Verify", 2, "inputLen", -1),
-	req("hash", "init", "inputLen ≤ 8", "hash.init agrees with hashConfig.Verify", -8, "inputLen", 1),
-	req("hash", "init", "0 ≤ hashBits ≤ 24", "hash.init agrees with hashConfig.Verify", -24, "hashBits", 1),
+	// hash.init(inputLen, hashBits): parameters are addressed by position (#1, #2), not by name
+	req("hash", "init", "2 ≤ inputLen", "hash.init agrees with hashConfig.Verify", 2, "#1", -1),
+	req("hash", "init", "inputLen ≤ 8", "hash.init agrees with hashConfig.Verify", -8, "#1", 1),
+	req("hash", "init", "0 ≤ hashBits ≤ 24", "hash.init agrees with hashConfig.Verify", -24, "#2", 1),
 	req("bucketConfig", "Verify", "2 ≤ InputLen", "minimum match length", 2, "InputLen", -1),
 	req("bucketConfig", "Verify", "InputLen ≤ 8", "8-byte loads", -8, "InputLen", 1),
 	req("bucketConfig", "Verify", "0 ≤ HashBits", "1 << HashBits buckets", 0, "HashBits", -1),
@@ -110,9 +111,11 @@ func (c *Ctx) reqHolds(r verifyReq) (bool, string) {
 			cands := fi.atomsWithSuffix("." + field)
 			if !strings.Contains(field, ".") {
 				// parameters of init functions
-				for _, p := range fn.Params {
-					if p.Name() == field {
-						cands = append(cands, p.Name())
+				if strings.HasPrefix(field, "#") {
+					var idx int
+					fmt.Sscanf(field, "#%d", &idx)
+					if idx >= 1 && idx < len(fn.Params) {
+						cands = append(cands, fn.Params[idx].Name())
 					}
 				}
 			}
@@ -871,20 +874,24 @@ func (c *Ctx) isSliceShrinkLoop(fi *FuncInfo, l *Loop) bool {
 	if !ok {
 		return false
 	}
-	bo, ok := iff.Cond.(*ssa.BinOp)
-	if !ok {
+	// the loop continues only under  c − len(q) ≤ 0  (any spelling) for a header phi q
+	stay := l.Blocks[l.Header.Succs[0]]
+	fs := fi.factsOf([]Cond{{iff.Cond, stay}})
+	if len(fs) != 1 || fs[0].Op != LE {
 		return false
 	}
-	call, ok := bo.X.(*ssa.Call)
-	if !ok {
-		return false
+	var q *ssa.Phi
+	for a, co := range fs[0].L.t {
+		if co != -1 || !strings.HasPrefix(a, "len(") || !strings.HasSuffix(a, ")") {
+			return false
+		}
+		ph, isPhi := fi.atomValues()[a[4:len(a)-1]].(*ssa.Phi)
+		if !isPhi || ph.Block() != l.Header {
+			return false
+		}
+		q = ph
 	}
-	bi, ok := call.Call.Value.(*ssa.Builtin)
-	if !ok || bi.Name() != "len" {
-		return false
-	}
-	q, ok := call.Call.Args[0].(*ssa.Phi)
-	if !ok || q.Block() != l.Header {
+	if q == nil || len(fs[0].L.t) != 1 {
 		return false
 	}
 	for i, p := range l.Header.Preds {
